@@ -5,7 +5,7 @@ D=$(mktemp -d /tmp/mw-XXXXXX); rmdir $D
 git -C /repo worktree add -q --detach $D HEAD || exit 3
 if ! git -C $D apply "$P"; then echo "PATCH DOES NOT APPLY"; git -C /repo worktree remove --force $D; exit 3; fi
 VERIF_REPO=$D VERIF_OUT_DIR=${VERIF_OUT_DIR:-/tmp/verif-mutant-out/$ID} /verif/check.sh $ID $TIER > /tmp/mutant-$ID-$$.log 2>&1; rc=$?
-grep -m3 -E "^VIOLATION|signature|KNOWN-FINDING|INCONCLUSIVE" /tmp/mutant-$ID-$$.log | cut -c1-220; tail -1 /tmp/mutant-$ID-$$.log | cut -c1-250
+grep -a -m1 -A1 "^VIOLATION" /tmp/mutant-$ID-$$.log | cut -c1-260; grep -a -m1 "INCONCLUSIVE" /tmp/mutant-$ID-$$.log | cut -c1-200; tail -1 /tmp/mutant-$ID-$$.log | cut -c1-250
 echo "exit=$rc"
 git -C /repo worktree remove --force $D
 rm -f /tmp/mutant-$ID-$$.log
